@@ -27,7 +27,8 @@ class Universe(object):
         pgpy = import_pgpy()
         from pgpy.constants import PubKeyAlgorithm, KeyFlags, HashAlgorithm, SymmetricKeyAlgorithm, CompressionAlgorithm, EllipticCurveOID
         self.pgpy = pgpy
-        spec = [('K0', 'Alice', 'c1', 'a@x.org', 1000), ('K1', 'Alice', 'c2', 'a@x.org', 2000),
+        # K0's comment differs from the others' only by a space: an identifier is looked up as it is before any space-insensitive form
+        spec = [('K0', 'Alice', 'c 1', 'a@x.org', 1000), ('K1', 'Alice', 'c2', 'a@x.org', 2000),
                 ('K2', 'Bob', 'c1', 'b@x.org', 3000), ('K3', 'Alice', 'c1', 'c@x.org', 1000)]
         for j in range(extra):
             spec.append(('K%d' % (4 + j), ['Alice', 'Bob', 'Carol'][j % 3], ['c1', '', 'c3'][j % 3], ['a@x.org', 'd%d@x.org' % j][j % 2], 1000 * (j % 3) + 500))
@@ -46,6 +47,10 @@ class Universe(object):
                 k.add_subkey(sk, usage={KeyFlags.EncryptCommunications})
                 sk2 = pgpy.PGPKey.new(PubKeyAlgorithm.EdDSA, EllipticCurveOID.Ed25519, created=datetime.fromtimestamp(t + 6, timezone.utc))
                 k.add_subkey(sk2, usage={KeyFlags.Sign})
+            if name == 'K1':
+                # a second key with an encryption subkey: messages to two recipients
+                sk = pgpy.PGPKey.new(PubKeyAlgorithm.ECDH, EllipticCurveOID.Curve25519, created=datetime.fromtimestamp(t + 5, timezone.utc))
+                k.add_subkey(sk, usage={KeyFlags.EncryptCommunications})
             self.priv[name] = k
             for half, key in (('s', k), ('p', k.pubkey)):
                 cid = name + half
@@ -78,6 +83,16 @@ class Universe(object):
         for c, v in self.comp.items():
             if v['keyid'] in tgt:
                 v['aliases'].append('msg:K2')
+        # a message encrypted to K1 and to K2 (two recipients): with the public half of one and the secret half of the other loaded, the
+        # selection is the one that can decrypt; built in both recipient orders
+        for tag_, (ka, kb) in (('msg:K1+K2', ('K1', 'K2')), ('msg:K2+K1', ('K2', 'K1'))):
+            m2 = self.priv[ka].pubkey.encrypt(pgpy.PGPMessage.new('for two'), sessionkey=bytes(range(32)), cipher=SymmetricKeyAlgorithm.AES256)
+            m2 = self.priv[kb].pubkey.encrypt(m2, sessionkey=bytes(range(32)), cipher=SymmetricKeyAlgorithm.AES256)
+            self.special[tag_] = m2
+            for c, v in self.comp.items():
+                if v['keyid'] in set(m2.encrypters):
+                    v['aliases'].append(tag_)
+        self.decrypt_idents = ['msg:K2', 'msg:K1+K2', 'msg:K2+K1']
         # a message signed by K1 and by K2 (two issuers): selected by whichever of them is loaded
         sm = pgpy.PGPMessage.new('signed by two')
         sm |= self.priv['K1'].sign(sm)
@@ -94,16 +109,17 @@ class Universe(object):
     def _comp(self, cid, key, words):
         fp = key.fingerprint
         al = [str(fp), fp.keyid, fp.shortid, spaced(fp)] + [w for w in words if w]
-        self.comp[cid] = {'aliases': al, 'fpr': str(fp), 'keyid': fp.keyid}
+        self.comp[cid] = {'aliases': al, 'fpr': str(fp), 'keyid': fp.keyid, 'secret': not key.is_public}
 
     def doc_universe(self, instances):
         sub = {x: x.rsplit('/', 1)[0] for x in instances if '/' in x}
         if sub:
             return {'inst': {x: ([x] if '/' in x else self.inst[x.split('#')[0]]) for x in instances}, 'owner': sub,
-                    'comp': {c: {'aliases': v['aliases'], 'fpr': v['fpr']} for c, v in self.comp.items()}, 'idents': self.idents}
+                    'comp': {c: {'aliases': v['aliases'], 'fpr': v['fpr'], 'secret': v['secret']} for c, v in self.comp.items()}, 'idents': self.idents,
+                    'decrypt_idents': self.decrypt_idents}
         return {'inst': {x: self.inst[x.split('#')[0]] for x in instances},
-                'comp': {c: {'aliases': v['aliases'], 'fpr': v['fpr']} for c, v in self.comp.items()},
-                'idents': self.idents}
+                'comp': {c: {'aliases': v['aliases'], 'fpr': v['fpr'], 'secret': v['secret']} for c, v in self.comp.items()},
+                'idents': self.idents, 'decrypt_idents': self.decrypt_idents}
 
     def observe(self, kr):
         sel, has = [], []
@@ -154,6 +170,11 @@ def replay_behaviour(U, beh, tmpdir, rng=None, forms=False):
 def _one_step(U, kr, objs, n, op, x, tmpdir, rng, forms):
     if True:
         base = x.split('#')[0]
+        if '/' in x:
+            # a subkey object of the universe's key object
+            o = list(U.obj[x.rsplit('/', 1)[0]].subkeys.values())[int(x.rsplit('/', 1)[1]) - 1]
+            (kr.load if op == 'load' else kr.unload)(o)
+            return
         if op == 'load':
             form = 'obj'
             if forms:
@@ -219,10 +240,14 @@ def run(ctx):
     depth = 7 if ctx.quick else 9
     cfg = open(os.path.join(os.path.dirname(__file__), '..', '..', 'models', 'MC_KeyringImpl.cfg')).read().replace('MaxDepth = 6', 'MaxDepth = %d' % depth)
     r = ctx.model('MC_KeyringImpl', constants_text=cfg, coverage=True)
-    for act in ('Load', 'Unload'):
+    for act in ('Load', 'Unload', 'Reload', 'LoadSub', 'UnloadSub'):
         if r.coverage.get(act, (0, 0))[0] == 0:
             raise MachineryError('KeyringImpl action %s never taken' % act)
-    ctx.model('MC_KeyringImpl', 'MC_KeyringImpl_asfound', must_hold=False)
+    # the algorithm as found, one switch at a time, must each be refuted: layer choice in _add_alias (Complete), the space-free fallback for
+    # every kind of identifier (QueryOK), load() of a loaded key object doing nothing (LoadHoldsAll), key(message) taking any loaded
+    # recipient (MsgOK)
+    for mcfg in ('MC_KeyringImpl_asfound', 'MC_KeyringImpl_fallback', 'MC_KeyringImpl_reload', 'MC_KeyringImpl_anyrecipient'):
+        ctx.model('MC_KeyringImpl', mcfg, must_hold=False)
     # 2. behaviours of the property spec (exhaustive to depth D, simulated deep walks)
     g = ctx.model('Gen_Keyring', 'Gen_Keyring' if ctx.quick else 'Gen_Keyring5')
     behs = [tuple(tuple(s) for s in p[1]) for p in g.prints if isinstance(p, list) and p and p[0] == 'BEH']
@@ -236,13 +261,18 @@ def run(ctx):
     sc = ctx.model('Gen_KeyringImpl', workers=1)
     cover = sorted({tuple(tuple(st) for st in p[1]) for p in sc.prints if isinstance(p, list) and p and p[0] == 'BEH'})
     cover = [b for b in cover if len(b) >= 5 and (len(b) <= 5 or not ctx.quick)]
+    if len(cover) > 25000:
+        cover = [b for b in cover if len(b) == 5] + ctx.rng.sample([b for b in cover if len(b) > 5], 20000)
     ctx.extra['state_coverage_histories'] = len(cover)
     U = Universe()
     tmp = tempfile.mkdtemp(prefix='kr-', dir=ctx.work)
     traces = []
+    # the algorithm spec's histories include subkey objects loaded / unloaded on their own and key objects loaded again
+    ctraces = []
     for b in cover:
-        traces.append(replay_behaviour(U, b, tmp))
+        ctraces.append(replay_behaviour(U, b, tmp))
         ctx.case(('cover', b))
+    validate(ctx, U, ctraces, sorted(U.inst) + sorted(x for x in U.comp if '/' in x), 'cover')
     for b in sorted(set(behs)):
         traces.append(replay_behaviour(U, b, tmp))
         ctx.case(('beh', b))
@@ -293,9 +323,14 @@ def run(ctx):
     subinst = sorted(x for x in U.comp if '/' in x)
     whole = sorted(U.inst)
     straces = []
-    for t in range(30 if ctx.quick else 400):
-        held, beh = set(), []
-        for _ in range(ctx.rng.randrange(3, 10)):
+    directed = [[('load', 'K2s'), ('unload', 'K2s/1'), ('load', 'K2s')], [('load', 'K1p'), ('unload', 'K1p/1'), ('load', 'K1p'), ('unload', 'K1p')],
+                [('load', 'K2p'), ('load', 'K2s'), ('unload', 'K2s/2'), ('load', 'K2s'), ('unload', 'K2p')],
+                # one recipient's public half with the other recipient's secret half: selection by the message is the half that can decrypt
+                [('load', 'K1p'), ('load', 'K2s')], [('load', 'K2p'), ('load', 'K1s')], [('load', 'K1s'), ('load', 'K2p'), ('load', 'K1p')],
+                [('load', 'K2s/1'), ('load', 'K1p/1')], [('load', 'K1s/1'), ('load', 'K2p/1'), ('load', 'K2s/1'), ('unload', 'K1s/1')]]
+    for t in range(len(directed) + (30 if ctx.quick else 400)):
+        held, beh = set(), list(directed[t]) if t < len(directed) else []
+        for _ in range(0 if t < len(directed) else ctx.rng.randrange(3, 10)):
             r = ctx.rng.random()
             if r < 0.35:
                 x = ctx.rng.choice(whole)
